@@ -351,5 +351,11 @@ def run(ctx):
     ctx.ob('C01.R7', 'residue_type:source', ok,
            'the residue type is the residue name, replaced by the terminus tag when the atom '
            'carries one', gmod, rt[0] if rt else gi)
+    # ------------------------------------------------------------------ R8
+    # "exactly once" in the reported (averaged) result: the averaging step
+    # enumerates the groups of every conformation and skips one only when the
+    # same group (find_group's key) is already in the average container
+    from checks import c08
+    c08.averaging_rules(ctx, lambda name: 'C01.R8')
     ctx.assume('the terminus tagger is checked for re-arming events and key completeness only, '
                'not as a transducer over all record sequences')
